@@ -35,11 +35,17 @@ type c08Params struct {
 	Conns   []c08Conn `json:"conns"`
 	Flusher bool      `json:"flusher"`
 	Spin    bool      `json:"spinlock"`
+	// Shrink: one connection issues AOFSHRINK; the rewrite re-encodes objects, so
+	// "the log holds the write" is decided on (key, id) instead of the exact bytes
+	Shrink bool `json:"shrink,omitempty"`
 }
 
 // isWrite tells whether a harness command is expected to be logged when it is
 // acknowledged with a success reply.
-func c08LoggedBytes(cmd []string) [][]byte {
+func c08LoggedBytes(cmd []string, shrink ...bool) [][]byte {
+	if len(shrink) > 0 && shrink[0] && strings.ToUpper(cmd[0]) == "SET" {
+		return [][]byte{[]byte(fmt.Sprintf("\r\n$%d\r\n%s\r\n$%d\r\n%s\r\n", len(cmd[1]), cmd[1], len(cmd[2]), cmd[2]))}
+	}
 	switch strings.ToUpper(cmd[0]) {
 	case "SET", "DEL", "FSET":
 		return [][]byte{respCmd(cmd...)}
@@ -97,8 +103,13 @@ func c08Run(job *Job, p c08Params, prefix []int) (out schedOut) {
 					if k >= len(p.Conns[i].Cmds) || v.IsErr() {
 						continue
 					}
-					img := vos.Image(len(vos.Log))[aofPath]
-					for _, want := range c08LoggedBytes(p.Conns[i].Cmds[k]) {
+					files := vos.Image(len(vos.Log))
+					img, have := files[aofPath]
+					if !have {
+						// between the two renames of a rewrite the log a restart would load is the backup
+						img = files[aofPath+"-bak"]
+					}
+					for _, want := range c08LoggedBytes(p.Conns[i].Cmds[k], p.Shrink) {
 						if !bytes.Contains(img, want) {
 							early = append(early, fmt.Sprintf("conn%d cmd%d %v acknowledged (%s) while log file holds %d bytes without it",
 								i, k, p.Conns[i].Cmds[k], v.String(), len(img)))
@@ -154,7 +165,7 @@ func c08Run(job *Job, p c08Params, prefix []int) (out schedOut) {
 		var order []string
 		for i, c := range p.Conns {
 			for k, cmd := range c.Cmds {
-				for _, w := range c08LoggedBytes(cmd) {
+				for _, w := range c08LoggedBytes(cmd, p.Shrink) {
 					order = append(order, fmt.Sprintf("%d.%d@%d", i, k, bytes.Index(img, w)))
 				}
 			}
@@ -175,7 +186,7 @@ func c08Run(job *Job, p c08Params, prefix []int) (out schedOut) {
 		// durability: after a clean stop every acknowledged write is in the file
 		for i, c := range p.Conns {
 			for k, cmd := range c.Cmds {
-				for _, w := range c08LoggedBytes(cmd) {
+				for _, w := range c08LoggedBytes(cmd, p.Shrink) {
 					if !bytes.Contains(img, w) && out.VSig == "" {
 						out.VSig = "C08/acked-write-missing-from-log"
 						out.VDetail = fmt.Sprintf("conn%d cmd%d %v acknowledged but absent from the log after stop", i, k, cmd)
@@ -209,6 +220,8 @@ func c08Scenarios(tier string) (scs []c08Params, bound int) {
 		c08Params{Conns: []c08Conn{{Cmds: [][]string{set("a"), {"NEARBY", "k", "FENCE", "POINT", "1", "1", "1000"}}}, {Cmds: [][]string{get}}}},
 		c08Params{Conns: []c08Conn{{Cmds: [][]string{set("a"), {"SUBSCRIBE", "ch"}}}, {Cmds: [][]string{set("b")}}}},
 	)
+	// a write acknowledged while AOFSHRINK is rewriting the log
+	scs = append(scs, c08Params{Pre: [][]string{set("p1"), set("p2"), {"SET", "j", "x", "POINT", "2", "2"}}, Conns: []c08Conn{{Cmds: [][]string{{"AOFSHRINK"}}}, {Cmds: [][]string{set("b")}}}, Shrink: true})
 	// a write followed, in the same segment, by a read whose reply is larger than 4 MiB
 	scs = append(scs, c08Params{Pre: [][]string{{"@BIG", "kb", "big", "4300000"}}, Conns: []c08Conn{{Cmds: [][]string{set("a"), {"GET", "kb", "big"}}}, {Cmds: [][]string{get}}}})
 	if tier == "thorough" {
